@@ -20,6 +20,7 @@ import (
 	"fmt"
 	"os"
 	"path/filepath"
+	"strconv"
 	"strings"
 
 	"github.com/opencontainers/go-digest"
@@ -46,8 +47,17 @@ func main() {
 	r.Assume("one media type per digest (media-type twins are C01's shape, as in C07); descriptors passed to Tag carry the node's true media type and size")
 	r.Assume("reference names are valid UTF-8 (JSON cannot carry other byte strings)")
 	r.Assume("with AutoSaveIndex off the directory is only judged after an explicit SaveIndex, as the statement says")
-	worker.Run(r, worker.Opts{Phase: "hist", Total: r.N(320, 6000), Batch: r.N(20, 50)})
-	r.Finish(r.N(80, 1500))
+	worker.Run(r, worker.Opts{Phase: "hist", Total: r.N(400, 6000), Batch: r.N(20, 50)})
+	r.Finish(r.N(100, 1500))
+}
+
+// envSeed reads VERIF_SEED (workers must not re-read known_findings.json,
+// which may be rewritten while a long run is in progress).
+func envSeed() int64 {
+	if n, err := strconv.ParseInt(os.Getenv("VERIF_SEED"), 10, 64); err == nil {
+		return n
+	}
+	return 1
 }
 
 type witnessT struct {
@@ -59,7 +69,7 @@ type witnessT struct {
 }
 
 func runCase(phase string, i int) worker.Result {
-	seed := evidence.New("C08", "exploration").Seed
+	seed := envSeed()
 	rng := evidence.RandFor(seed, "c08-"+phase, i)
 	var res worker.Result
 
@@ -108,6 +118,9 @@ func runCase(phase string, i int) worker.Result {
 	if !autoSave {
 		og.Weights["saveindex"] = 8
 	}
+	// one history in three is a "churn" history: everything is pushed first
+	// (children first), then removals, GC and tag moves dominate
+	churn := rng.IntN(3) == 0
 	// references probed besides the ones in use: one never used, the empty one
 	probeRefs := append(append([]string{}, og.Refs...), "never-used-ref")
 
@@ -131,7 +144,7 @@ func runCase(phase string, i int) worker.Result {
 	var history []string
 	var kinds []string
 	wit := func(detail any) witnessT {
-		return witnessT{Options: map[string]any{"AutoSaveIndex": autoSave, "AutoGC": autoGC}, Refs: og.Refs,
+		return witnessT{Options: map[string]any{"AutoSaveIndex": autoSave, "AutoGC": autoGC, "churn": churn}, Refs: og.Refs,
 			Nodes: ocicheck.Describe(nodes), History: append([]string{}, history...), Detail: detail}
 	}
 
@@ -184,6 +197,9 @@ func runCase(phase string, i int) worker.Result {
 
 	retagOrUntag, delOrGC := false, false
 	steps := 12 + rng.IntN(34)
+	if churn {
+		steps += len(nodes)
+	}
 	dirty := false // AutoSaveIndex off: something happened since the last SaveIndex
 	failed := false
 
@@ -212,7 +228,7 @@ func runCase(phase string, i int) worker.Result {
 
 	for s := 0; s < steps && !failed; s++ {
 		// continue on a reopened store now and then
-		if (autoSave || !dirty) && rng.IntN(14) == 0 {
+		if (autoSave || !dirty) && !(churn && s < len(nodes)) && rng.IntN(14) == 0 {
 			if !checkpoint("reopen-continue") {
 				failed = true
 				break
@@ -232,6 +248,14 @@ func runCase(phase string, i int) worker.Result {
 		op := og.Next(ctx, rng, st)
 		if s < 4 && len(nodes) > 4 { // start with some content
 			op = ocicheck.Op{Kind: "push", Node: rng.IntN(len(nodes))}
+		}
+		if churn && s < len(nodes) {
+			op = ocicheck.Op{Kind: "push", Node: s}
+			if s == len(nodes)-1 {
+				for k, w := range map[string]int{"push": 8, "tag": 18, "retag": 8, "untag": 8, "delete": 24, "gc": 14} {
+					og.Weights[k] = w
+				}
+			}
 		}
 		// was the reference in use before (re-tag)?
 		isRetag := false
@@ -302,7 +326,7 @@ func runCase(phase string, i int) worker.Result {
 		checkpoint("final")
 	}
 
-	res.Key = fmt.Sprintf("save=%v gc=%v n=%d|%s", autoSave, autoGC, len(nodes), strings.Join(kinds, ""))
+	res.Key = fmt.Sprintf("save=%v gc=%v churn=%v n=%d|%s", autoSave, autoGC, churn, len(nodes), strings.Join(kinds, ""))
 	res.NT = retagOrUntag && delOrGC
 	res.Observe("option_sets", fmt.Sprintf("save=%v gc=%v", autoSave, autoGC))
 	if i%61 == 0 {
